@@ -62,6 +62,13 @@ JudgeOp(un, ch, m, tag) ==
                                                    /\ ch.eq0 = un.eq0 /\ ch.lt0 = un.lt0)
            THEN {tag \o ".checked_unchecked_disagree"} ELSE {})
 
+\* the compound-assignment form of an operator gives what the operator gives (when representable)
+AssignForm(as, un, m, tag) ==
+  IF ~Fits(m.l) THEN {}
+  ELSE IF as.st # "ok" THEN {tag \o "_fails"} ELSE Consistent(as, m, tag)
+\* a From conversion of the operand, where the source type can hold it ("na" otherwise)
+Conv(c, m, tag) == IF c.st = "na" THEN {} ELSE IF c.st # "ok" THEN {tag \o "_fails"} ELSE Consistent(c, m, tag)
+
 JudgeRow(r) ==
   LET a == [neg |-> r.a.neg, l |-> r.a.l]
       b == [neg |-> r.b.neg, l |-> r.b.l]
@@ -79,6 +86,14 @@ JudgeRow(r) ==
                            \cup Consistent(r.div, MkS(r.div.neg, r.div.l), "div.unchecked"))
                 \cup (IF r.cdiv.st = "ok" /\ r.div.st = "ok" /\ ~(Eq(r.cdiv.l, r.div.l) /\ r.cdiv.eq0 = r.div.eq0 /\ r.cdiv.lt0 = r.div.lt0)
                       THEN {"div.checked_unchecked_disagree"} ELSE {}))
+     \cup AssignForm(r.adda, r.add, MAdd(a, b), "add.assign")
+     \cup AssignForm(r.suba, r.sub, MSub(a, b), "sub.assign")
+     \cup AssignForm(r.mula, r.mul, MMul(a, b), "mul.assign")
+     \cup (IF IsZero(b.l) \/ r.diva.st # "ok" THEN (IF ~IsZero(b.l) THEN {"div.assign_fails"} ELSE {})
+           ELSE (IF IsTruncQuot([neg |-> r.diva.neg, l |-> r.diva.l], a, b) THEN {} ELSE {"div.assign.value"})
+                \cup Consistent(r.diva, MkS(r.diva.neg, r.diva.l), "div.assign"))
+     \cup UNION {Conv(r.conv[k], MkS(a.neg, a.l), "from_" \o k) : k \in DOMAIN r.conv \ {"default"}}
+     \cup Consistent(r.conv["default"], MkS(FALSE, <<0>>), "default")
      \cup Consistent(r.nega, MNegate(a), "neg")
      \cup Consistent(r.absa, MkS(FALSE, a.l), "abs")
      \cup Consistent(r.ida, MkS(a.neg, a.l), "operand")
